@@ -4,6 +4,7 @@ CONSTANTS
   MaxCrash = 2
   Guard = TRUE
   Tiny = TRUE
+  Queued = FALSE
 INVARIANTS ReadableWhileUp Recoverable NextAbove GuardSound
 CHECK_DEADLOCK FALSE
 CONSTRAINT Bound
